@@ -8,7 +8,9 @@ Tie:  hand-written model + exact differential correspondence through drv_c01
 Oracle (independent of the model): explicit 2^n x 2^n Kronecker reference (n <= 10) and a factor-by-factor
       tensordot reference (any n), evaluated on the result of the real code.
 """
-import json, time
+import json, os, time
+os.environ.setdefault("OMP_NUM_THREADS", "1")          # tiny matrices: BLAS threads only cost time
+os.environ.setdefault("OPENBLAS_NUM_THREADS", "1")
 import numpy as np
 from qgv import core
 from qgv import c01lib as L
@@ -56,8 +58,9 @@ def classify(name, impl, want):
     if impl.get("kind") != "num":
         return ({"backend": cls, "kind": "object-dtype-result"},
                 "returned array has dtype=object (Python complex objects), not a numeric vector: the values equal the "
-                "Kronecker product applied to psi, but np.allclose(result, reference) raises TypeError and the "
-                "library's own next step (float accumulation of np.square(np.absolute(psi))) raises UFuncTypeError")
+                "Kronecker product applied to psi, but the other backends return complex128 for the same input and the "
+                "library's own next step (float accumulation of np.square(np.absolute(psi)) in the simulator) raises "
+                "UFuncTypeError on it")
     return None
 
 
@@ -67,8 +70,10 @@ def value_cases(ctx):
     T = ctx.thorough
     cases = []           # (family, case)
 
-    def add(fam, n, shapes, **kw):
+    def add(fam, n, shapes, backends=None, **kw):
         c = L.build_case(rng, n, shapes, **kw)
+        if backends:
+            c["backends"] = backends
         if L.growth(c) < 2 ** 50:
             cases.append((fam, c))
 
@@ -101,7 +106,8 @@ def value_cases(ctx):
                     continue
                 depth = 1 if n > 10 else rng.randint(1, 3)
                 add("chunk-settings", n, [L.rand_shape(rng, n, 0.35) for _ in range(depth)],
-                    id_prob=rng.choice([0.0, 0.3, 0.7]), mn=mn, op=op)
+                    id_prob=rng.choice([0.0, 0.3, 0.7]), mn=mn, op=op,
+                    backends=None if (n <= 6 or mn == op) else ["efficient"])   # the other two ignore the setting
     # blocks straddling a chunk boundary in every position, both placeholder sides
     for n in range(4, nmax + 1):
         for pos in range(n - 1):
@@ -135,9 +141,11 @@ def malformed_cases(ctx):
     rng = ctx.rng
     out = []
 
-    def add(fam, n, shapes, psi_n=None, **kw):
+    def add(fam, n, shapes, psi_n=None, backends=None, **kw):
         c = L.build_case(rng, psi_n if psi_n is not None else n, shapes, **kw)
         c["n"] = n
+        if backends:
+            c["backends"] = backends
         out.append((fam, c))
     add("empty-list", 2, [])
     add("empty-list", 8, [])
@@ -153,7 +161,7 @@ def malformed_cases(ctx):
     add("only-placeholders", 2, [[0, 0]])
     add("only-placeholders", 5, [[0, 0, 2, 2, 2]], id_prob=0)
     add("only-placeholders", 5, [[2, 2, 2, 0, 0]], id_prob=0)
-    add("only-placeholders", 8, [[0] * 8])
+    add("only-placeholders", 8, [[0] * 8], backends=["standard", "ones"])   # (EfficientBackend: depends on repair D8)
     add("min>opt", 9, [[2] * 9], mn=5, op=2, id_prob=0)
     add("min>opt", 9, [[2] * 7 + [4, 0]], mn=6, op=4, id_prob=0)
     add("opt=0", 9, [[2] * 9], mn=0, op=0)
@@ -319,7 +327,7 @@ def main(ctx):
         dom = in_domain(b, n, mn, op, [codes], 2 ** n)
         if dom and "err" in im:
             sig, what = classify(b, im, None)
-            fail(sig, n * 100, {"mode": "plan", "backend": b, "n": n, "min": mn, "opt": op, "codes": codes, "observed": im},
+            fail(sig, n * 100 + 50, {"mode": "plan", "backend": b, "n": n, "min": mn, "opt": op, "codes": codes, "observed": im},
                  f"{CLASS[b]}(n={n}, min={mn}, opt={op}) on layer shape {codes}: {what}")
             oracle_failed = True
         else:
@@ -369,21 +377,22 @@ def main(ctx):
                     else:
                         i += 1
         want = None
-        if not malformed:
+        wf_input = bool(codes) and len(case["psi"]) == 2 ** n and all(L.is_wf(c, n) for c in codes)
+        if wf_input:
             w = L.oracle_factor(case)
             if n <= 10:
                 w2 = L.oracle_explicit(case)
                 if not np.array_equal(w, w2):
                     raise RuntimeError("the two oracles disagree: " + json.dumps(L.case_to_json(case))[:300])
             want = L.canon_vec(w)["ok"]
-        for b in LAYER_BACKENDS:
+        for b in case.get("backends", LAYER_BACKENDS):
             if b == "standard" and n > (11 if ctx.thorough else 10):
                 continue
             im, raw, untouched = L.run_layers(b, case)
             ctx.count()
             if "err" in im:
                 bump("errors_impl", f"value:{b}:{im['err']}")
-            dom = (not malformed) and in_domain(b, n, case["min"], case["opt"], codes, len(case["psi"]))
+            dom = wf_input and in_domain(b, n, case["min"], case["opt"], codes, len(case["psi"]))
             bad = None
             if dom:
                 n_oracle += 1
@@ -590,10 +599,6 @@ def replay(ctx, path):
         print("implementation:", {k: (v if k != "ok" else v[:16]) for k, v in im.items()})
         print("oracle (first components):", want[:16])
         if raw is not None and getattr(raw, "dtype", None) is not None and raw.dtype.kind == "O":
-            try:
-                np.allclose(raw, np.array(want[0::2]) + 1j * np.array(want[1::2]))
-            except Exception as e:              # noqa
-                print("np.allclose(result, reference) ->", type(e).__name__, str(e)[:100])
             try:
                 acc = np.zeros(len(raw)); acc += np.square(np.absolute(raw))
             except Exception as e:              # noqa
